@@ -1,5 +1,5 @@
 """C10 - str-like methods agree with Python's str on the base text."""
-from .common import Contract, ansi_values, history, run_cases, tier_sizes, is_ansi
+from .common import Contract, ansi_values, history, run_cases, tier_sizes, is_ansi, esc_seam_values
 from ..gen import gen_bound, gen_text
 from ..monitor import StepBudgetExceeded
 
@@ -220,6 +220,9 @@ def drive(ctx, mon, tier, only_case=None):
     def body(rng, ex, case):
         history(L, rng, ex, rng.randint(1, 6), sz['maxlen'], 'wf', WEIGHTS, esc=rng.random() < 0.15)
         vals = ansi_values(L, ex)
+        if rng.random() < 0.2:
+            with mon.quiet():
+                vals = vals + esc_seam_values(L, rng, 2)
         for v in vals[-4:]:
             if len(v.base_str) <= 80:
                 direct_calls(ctx, rng, L, v)
